@@ -40,6 +40,10 @@ struct FaultSpec
     int64_t pos = 0;  // ordinal / tick / allocation index
     int code = 0;     // sqlite result code
     int method = 0, role = 0;
+    // F3 only: the fault does not go away.  1: from the addressed call on, EVERY call of that method on that file fails
+    // until the API call returns (a device that stays broken); for SQLITE_FULL every size-extending write on every
+    // library file fails (a disk that stays full).  One-shot otherwise.
+    int persist = 0;
     Json to_json() const;
     static FaultSpec from_json(const Json& j);
 };
@@ -51,6 +55,9 @@ struct Step
     uint64_t vseed = 0;
     int size = 1;
     FaultSpec fault;
+    // C14 fault sequences: faulted attempts of the same call executed in place (same connection, no restore) before
+    // the attempt that carries `fault`
+    std::vector<FaultSpec> pre;
     Json to_json() const;
     static Step from_json(const Json& j);
 };
@@ -404,6 +411,7 @@ struct World
                     bool setter, std::string& why);
     Json result_json() const;
 
+    std::map<std::string, int> uuid_seen;  // UUID text -> token number (observe())
     // purity monitor state
     uint64_t pm_writes = 0, pm_trunc = 0, pm_del = 0, pm_hash = 0;
     int64_t pm_changes = 0;
